@@ -452,3 +452,76 @@ package ackhandler
 //@   ensures [congestion-gate] implies(result == SendAny || result == SendPacingLimited, lastresultb("(congestion.SendAlgorithmWithDebugInfos).CanSend"))
 //@   ensures [probe-mode] implies(result == SendPTOInitial || result == SendPTOHandshake || result == SendPTOAppData, h.numProbesToSend > 0 && result == h.ptoMode)
 //@   modifies nothing
+
+//@ func getPacket
+//@   trusted sync.Pool: returns a cleared packet object (all fields reset by getPacket itself)
+//@   ensures result != nil && isfresh(result) && len(result.StreamFrames) == 0 && len(result.Frames) == 0 && result.Length == 0 && !result.includedInBytesInFlight && !result.isPathProbePacket && !result.IsPathMTUProbePacket
+//@   modifies nothing
+//@ func putPacket
+//@   trusted sync.Pool: the packet is handed back to the pool
+//@   modifies p.Frames, p.StreamFrames
+
+//@ func (h *sentPacketHistory) SentPathProbePacket
+//@   props C06
+//@   requires h.hInv() && 0 <= pn && pn <= 4611686018427387000 && (len(h.packets) == 0 || h.highestPacketNumber != -1)
+//@   panics when h.highestPacketNumber != -1 && pn != h.highestPacketNumber + 1
+//@   ensures [outstanding-kept] h.numOutstanding == old(h.numOutstanding)
+//@   ensures [appended] len(h.packets) == old(len(h.packets)) + 1 && h.highestPacketNumber == pn && len(h.pathProbePackets) == old(len(h.pathProbePackets)) + 1
+//@   modifies h.highestPacketNumber, h.firstPacketNumber, h.packets, h.packets[*], h.pathProbePackets, h.pathProbePackets[*]
+
+//@ func (h *sentPacketHandler) queueFramesForRetransmission
+//@   props C06
+//@   panics when len(p.Frames) == 0 && len(p.StreamFrames) == 0
+//@   ensures [cleared] len(p.StreamFrames) == 0 && len(p.Frames) == 0
+//@   ensures [flight-untouched] h.bytesInFlight == old(h.bytesInFlight) && p.includedInBytesInFlight == old(p.includedInBytesInFlight)
+//@   modifies p.StreamFrames, p.Frames
+//@ loop (h *sentPacketHandler) queueFramesForRetransmission #0
+//@   invariant true
+//@   modifies nothing
+//@ loop (h *sentPacketHandler) queueFramesForRetransmission #1
+//@   invariant true
+//@   modifies nothing
+
+//@ func (h *sentPacketHandler) SentPacket
+//@   props C06 C14
+//@   requires h.sInv() && 0 <= size && size <= 65535 && h.bytesInFlight <= 4611686018427000000 && h.bytesSent <= 4611686018427000000 && 0 <= t && t <= 4611686018427387903 && 0 <= pn && pn <= 4611686018427387000
+//@   requires h.logger != nil && (encLevel == protocol.EncryptionInitial || encLevel == protocol.EncryptionHandshake || encLevel == protocol.Encryption0RTT || encLevel == protocol.Encryption1RTT)
+//@   let sp = ite(encLevel == protocol.EncryptionInitial, h.initialPackets, ite(encLevel == protocol.EncryptionHandshake, h.handshakePackets, h.appDataPackets))
+//@   requires sp != nil && sp.history.hInv() && sp.history.numOutstanding < 4611686018427387903 && (len(sp.history.packets) == 0 || sp.history.highestPacketNumber != -1)
+//@   requires sp.history.highestPacketNumber == -1 || pn == sp.history.highestPacketNumber + 1
+//@   ensures [sent-counter] h.bytesSent == old(h.bytesSent) + size
+//@   ensures [in-flight] h.bytesInFlight == old(h.bytesInFlight) + ite((len(streamFrames) > 0 || len(frames) > 0) && !isPathProbePacket, size, 0)
+//@   ensures [largest-sent] sp.largestSent == pn
+//@   ensures [validation-untouched] h.peerAddressValidated == old(h.peerAddressValidated) && h.bytesReceived == old(h.bytesReceived)
+//@   modifies h.bytesSent, h.bytesInFlight, h.numProbesToSend, h.alarm.Time, h.alarm.TimerType, h.alarm.EncryptionLevel, h.lastMetrics.*, heap(atomic.Uint64.v),
+//@            sp.largestSent, sp.lastAckElicitingPacketTime, sp.history.highestPacketNumber, sp.history.firstPacketNumber, sp.history.packets, sp.history.packets[*],
+//@            sp.history.numOutstanding, sp.history.pathProbePackets, sp.history.pathProbePackets[*]
+//@ loop (h *sentPacketHandler) SentPacket #0
+//@   invariant true
+//@   modifies nothing
+
+//@ func (h *sentPacketHandler) qlogMetricsUpdated
+//@   props C06
+//@   requires h.rttStats != nil && h.congestion != nil && h.appDataPackets != nil
+//@   modifies h.lastMetrics.*
+
+//@ func (h *sentPacketHandler) packetsInFlight
+//@   props C06
+//@   requires h.appDataPackets != nil
+//@   modifies nothing
+
+// While the peer's address is unvalidated, a packet of at most S bytes sent after SendMode() allowed sending keeps
+// bytesSent <= 3*bytesReceived + S (the "plus the one packet already permitted" of C14). Inductive step; the base
+// case bytesSent = 0 is immediate; ReceivedBytes only increases bytesReceived ([adds]), SentPacket adds exactly size ([sent-counter]).
+//@ lemma ampBound
+//@   props C14
+//@   var h *sentPacketHandler
+//@   var now monotime.Time
+//@   var size protocol.ByteCount
+//@   var S protocol.ByteCount
+//@   assume h.sInv() && !h.peerAddressValidated && 0 <= size && size <= S && S <= 65535
+//@   assume h.bytesSent <= 3*h.bytesReceived + S
+//@   step m = h.SendMode(now)
+//@   assume m != SendNone
+//@   show [step] h.bytesSent + size <= 3*h.bytesReceived + S
+//@   show [strict-before] h.bytesSent < 3*h.bytesReceived
